@@ -410,8 +410,8 @@ def tbSend (s : TB) (sig : Nat) : TB :=
   match delivery s.st sig with
   | .caught => { s with st := deliver s.st sig }
   | .ignored => s
-  | .effect .terminate => { s with ended := some s!"sig{sig}" }
-  | .effect .suspend => { s with ended := some s!"stop{sig}" }
+  | .effect .terminate => { s with ended := some "sig" }
+  | .effect .suspend => { s with ended := some "stop" }
   | .effect _ => s
 
 def actionText (a : String) : Option String :=
@@ -428,7 +428,9 @@ def tbExitTrap (s : TB) : TB :=
   match (getState s.st.traps 0).1 with
   | some ts =>
     match ts.action with
-    | .command c => tbHook { s with out := tbLine s.exit c :: s.out }
+    | .command c =>
+      tbHook { s with out := tbLine s.exit c :: s.out,
+                      st := { s.st with traps := (tbBody c s.exit s.st.traps).2 } }
     | _ => s
   | none => s
 
@@ -445,9 +447,12 @@ def tbChildDone (s : TB) : TB :=
 
 mutual
 /-- simple statements; `inner` = inside a subshell (no `kill`, no nested subshell) -/
-def tbSimple (k : Nat) (s : TB) (ws : List String) : Option TB :=
+def tbSimple (k : Nat) (inner : Bool) (s : TB) (ws : List String) : Option TB :=
   match ws with
-  | "T" :: a :: ops => (actionText a).map fun t => tbTrap s k false (t :: ops)
+  | "T" :: a :: ops =>
+    -- a body that signals `$$` from inside a subshell would reach the parent: not in the language
+    if inner ∧ a.startsWith "k" then none
+    else (actionText a).map fun t => tbTrap s k false (t :: ops)
   | "TN" :: ops => some (tbTrap s k false ops)
   | ["P"] => some (tbTrap s k false [])
   | ["PP"] => some (tbTrap s k true [])
@@ -459,7 +464,7 @@ def tbSimple (k : Nat) (s : TB) (ws : List String) : Option TB :=
 end
 
 def tbList (k : Nat) (s : TB) (stmts : List (List String)) : Option TB :=
-  stmts.foldlM (fun s ws => if s.quit ∨ s.ended.isSome then some s else (tbSimple k s ws).map tbHook) s
+  stmts.foldlM (fun s ws => if s.quit ∨ s.ended.isSome then some s else (tbSimple k true s ws).map tbHook) s
 
 /-- the body of a subshell: the traps are reset for the child, its output is collected -/
 def tbChild (k : Nat) (s : TB) (ii : Bool) (inner : List (List String)) : Option TB :=
@@ -477,10 +482,19 @@ def tbStmt (k : Nat) (s : TB) (ws : List String) : Option TB :=
   | "cs" :: inner => do
     let c ← tbChild k s false (splitInner inner)
     let lines := if c.out.isEmpty then ["-"] else c.out
-    pure (tbChildDone { s with out := lines ++ s.out, exit := 0 })
+    -- the assignment `x=$(…)` is a command of its own: pending traps run before `echo "$x"`
+    let s1 := tbHook (tbChildDone { s with exit := c.exit })
+    pure { s1 with out := lines ++ s1.out, exit := 0 }
   | "bg" :: inner => do
     let c ← tbChild k s true (splitInner inner)
-    pure (tbChildDone { s with out := c.out ++ s.out, exit := c.exit })
+    -- `wait $!`: a trapped SIGCHLD interrupts the wait like any other trapped signal
+    let s1 := tbChildDone { s with out := c.out ++ s.out, exit := 0 }
+    let r := waitTrapLoop tbBody [SIGCHLD] s1.st.traps s1.exit
+    match r.2 with
+    | some (sig, cmd, _, _) =>
+      pure { s1 with st := { s1.st with traps := r.1 }, out := tbLine s1.exit cmd :: s1.out,
+                     exit := 384 + sig }
+    | none => pure { s1 with st := { s1.st with traps := r.1 }, exit := c.exit }
   | "W" :: sigs => do
     let sigs ← sigs.mapM parseAnySig
     -- `wait` installs the internal SIGCHLD disposition first; the child then sends the signals
@@ -498,7 +512,7 @@ def tbStmt (k : Nat) (s : TB) (ws : List String) : Option TB :=
       pure { s2 with st := { s2.st with traps := r.1 }, out := tbLine s2.exit c :: s2.out,
                      exit := 384 + sig }
     | none => pure { s2 with st := { s2.st with traps := r.1 }, exit := 3 }
-  | _ => tbSimple k s ws
+  | _ => tbSimple k false s ws
 
 def tbLineRun (line : String) : String :=
   let parts := ((splitTrim line ";").filter (· ≠ "")).map words
